@@ -8,7 +8,9 @@ NAMES = [b"content-length", b"Content-Length", b"transfer-encoding", b"Transfer-
          b"x-sig^1", b"x-sig~1", b"X-SIG~1", b"a@b", b"a`b", b"k[0]", b"k{0}", b"x_y", b"x\x7fy"]
 SMALL_NAMES = [b"Content-Length", b"transfer-encoding", b"Connection", b"x-foo", b"content-length", b"CONNECTION"]
 VALUES = [b"chunked", b" CHUNKED\t", b"gzip, chunked", b"chunked , gzip", b"close", b"keep-alive,\tClose ", b"5", b" 42 ",
-          b"", b"gzip", b"x", b"closed", b"chunked,", b",close", b"5, 5", b"007"]
+          b"", b"gzip", b"x", b"closed", b"chunked,", b",close", b"5, 5", b"007",
+          # 1*DIGIT has no length limit: zero-padded numerals of 20, 21 and 40 digits, and u64::MAX with a leading zero
+          b"00000000000000000042", b"000000000000000000007", b"0" * 38 + b"13", b"018446744073709551615"]
 SMALL_VALUES = [b"chunked", b"gzip , Chunked ", b"chunked, gzip", b"close", b"keep-alive", b"5", b" 6\t", b"x"]
 BAD_VALUES = [b"+5", b"abc", b"18446744073709551615", b"18446744073709551616", b"5\x0c", b"chunked\x0c", b"\xff", b"clo se",
               b"chunked\r", b"\nclose", b"1" * 25, b"-1", b"5 5", b"0x10"]
